@@ -273,6 +273,8 @@ def r3_decision(ctx, sgn, outs, slots, header):
                 return Opt(True, "<header>")   # the header is present ...
             if last == "to_str":
                 return ("Ok", "<text>")        # ... and visible ASCII on the rows that reach the final decision
+            if last == "is_empty":
+                return 0                       # ... and not empty (the abstract header lists at least the weighted codings)
             raise Stuck("call %s" % name)
         ev = Evaluator({}, calls=calls, extra=extra)
         try:
